@@ -221,7 +221,7 @@ def unflatten_mapping(xs: Any,
   for path, value in xs:
     if sep is not None:
       path = path.split(sep)
-    if value is empty_node:
+    if isinstance(value, _EmptyNode):
       value = {}
     cursor = result
     for key in path[:-1]:
